@@ -197,7 +197,7 @@ pub fn ref_stmt(s: &MStmt) -> String {
         MStmt::IncludeStd => "(incstd)".into(),
         MStmt::ExprStmt(e) => leaf(format!("(exprstmt {})", ref_expr(e))),
         MStmt::Scope(ss) => leaf(format!("(scope {})", ss.iter().map(ref_stmt).collect::<Vec<_>>().join(" "))),
-        MStmt::Empty => leaf("(empty)".into()),
+        MStmt::Empty => "(empty)".into(),
     }
 }
 
